@@ -569,6 +569,68 @@ pub fn api_replay(args: &[String]) {
 	let mut rng = Rng::new(seed ^ 0xa91);
 	let mut runs = 0u64;
 	let mut shape_steps = 0u64;
+	// every moving-average kind in every MA-typed field (and every source in every source field) survives the serde round
+	// trip of the configuration and of a running instance (C13)
+	for name in NAMES {
+		let base = default_cfg(name);
+		let j = base.to_json();
+		for (field, _v) in j.as_object().unwrap() {
+			// the type of a field is found out through `set` (not through the serialized form, which is what is being checked):
+			// a field that accepts "ema-5" is a moving-average constructor, one that accepts "close" a source, ...
+			let accepts = |t: &str| { let mut c = base.boxed(); c.set(field, t.to_string()).is_ok() };
+			let texts: Vec<String> = if accepts("ema-5") {
+				MA_KINDS.iter().flat_map(|k| [2u64, 3, 5, 9, 12, 14, 26, 30].iter().map(move |n| format!("{k}-{n}"))).collect()
+			} else if accepts("close") {
+				SOURCES.iter().map(|x| x.to_string()).collect()
+			} else if accepts("true") {
+				vec!["true".into(), "false".into()]
+			} else {
+				continue;
+			};
+			let mut ran: std::collections::HashSet<String> = std::collections::HashSet::new();
+			for text in texts {
+				let mut c = base.boxed();
+				if c.set(field, text.clone()).is_err() || !c.validate() {
+					continue;
+				}
+				match c.from_json(&c.to_json()) {
+					Ok(c2) => {
+						out.cmp(&format!("{name}:config-serde:value"), || json!({"field": field, "text": text}), &c.to_json(), &c2.to_json());
+					}
+					Err(e) => out.mismatch(&format!("{name}:config-serde:err"), json!({"msg": e, "cfg": c.to_json()})),
+				}
+				// a running instance: once per kind / source (the first length that validates)
+				if !ran.insert(text.split('-').next().unwrap().to_string()) {
+					continue;
+				}
+				let mut g = Gen::new(rng.u64(), true);
+				g.no_zero_volume = true;
+				let cs: Vec<Candle> = (0..14).map(|_| g.candle()).collect();
+				let Ok(Ok(mut a)) = catch(|| c.init(&cs[0])) else { continue };
+				let mut alive = true;
+				for x in &cs[..6] {
+					alive = alive && catch(std::panic::AssertUnwindSafe(|| a.next(x))).is_ok();
+				}
+				if !alive {
+					continue;
+				}
+				match c.restore_instance(&a.snapshot()) {
+					Ok(mut b) => {
+						out.cmp(&format!("{name}:snapshot:config"), || json!({"field": field, "text": text}), &a.cfg_json(), &b.cfg_json());
+						for (i, x) in cs[6..].iter().enumerate() {
+							let (ya, yb) = (catch(std::panic::AssertUnwindSafe(|| result_bits(&a.next(x)))), catch(std::panic::AssertUnwindSafe(|| result_bits(&b.next(x)))));
+							if let (Ok(ya), Ok(yb)) = (ya, yb) {
+								out.cmp(&format!("{name}:snapshot:value"), || json!({"field": field, "text": text, "step_after_restore": i}), &ya, &yb);
+							} else {
+								break;
+							}
+						}
+					}
+					Err(e) => out.mismatch(&format!("{name}:snapshot:err"), json!({"msg": e, "cfg": c.to_json()})),
+				}
+			}
+		}
+	}
 	for name in NAMES {
 		for variant in 0..2 {
 			let cfg = random_cfg(name, &mut rng, variant == 1);
@@ -648,6 +710,113 @@ pub fn api_replay(args: &[String]) {
 		}
 	}
 	out.summary(json!({"programs": progs.len(), "indicators": NAMES.len(), "runs": runs, "shape_steps": shape_steps}));
+}
+
+/// `yv ind-prefix-record <seed> <rounds> <steps> <out.ndjson> [name]` — C08 for indicators (events of Trace_Prefix):
+/// an instance initialised with a candle and fed that candle returns a constant result (values up to rounding without
+/// drift, signals exactly), and k extra leading copies of the first candle do not change the later results.
+pub fn prefix_record(args: &[String]) {
+	let seed: u64 = arg(args, 0, "seed");
+	let rounds: u64 = arg(args, 1, "rounds");
+	let steps: u64 = arg(args, 2, "steps");
+	let mut tw = TraceWriter::create(&args[3]);
+	let only = args.get(4).map(String::as_str);
+	let mut rng = Rng::new(seed ^ 0x9e1f7);
+	let vals = |r: &IndicatorResult| -> Vec<f64> { r.values().iter().map(|x| *x as f64).collect() };
+	let sigs = |r: &IndicatorResult| -> Vec<i64> { r.signals().iter().map(|a| crate::action::code(*a)).collect() };
+	for round in 0..rounds {
+		for name in NAMES {
+			if only.is_some_and(|o| o != *name) {
+				continue;
+			}
+			let cfg = random_cfg(name, &mut rng, round % 3 != 0);
+			let j = cfg.to_json();
+			// exempt by the property: indicators configured with a windowless (cumulative) ADI
+			if *name == "ChaikinOscillator" && j["window"].as_u64() == Some(0) {
+				continue;
+			}
+			let mut g = Gen::new(rng.u64(), true);
+			g.no_zero_volume = j.as_object().unwrap().values().any(|v| v == "volume" || v == "volumed_price");
+			let mut first = g.candle();
+			match rng.below(6) {
+				0 => {
+					first.high = first.close;
+					first.low = first.close;
+					first.open = first.close;
+				}
+				1 if !g.no_zero_volume => first.volume = 0.0,
+				2 => first.open = first.low,
+				_ => {}
+			}
+			let kcfg = cfg_k(&j).max(4);
+			let k = *rng.pick(&[1u64, 2, 3, kcfg.saturating_sub(1).max(1), kcfg, kcfg + 1, 3 * kcfg]);
+			let (Ok(Ok(mut a)), Ok(Ok(mut b))) = (catch(|| cfg.init(&first)), catch(|| cfg.init(&first))) else { continue };
+			let p0 = (first.high as f64).abs().max(first.volume as f64).max(1e-300);
+			tw.ev(json!({"ev":"pre_new","subject":name,"params":j.to_string(),"class":"ind","n":kcfg,"k":k,"scale":fx(p0),"first":candle_fx(&first)}));
+			// the parabolic SAR's documented trend value goes from "no trend" to its initial trend on the first candle:
+			// its results are compared from the second step on
+			let skip_first = *name == "ParabolicSAR";
+			if skip_first && catch(|| a.next(&first)).is_err() | catch(|| b.next(&first)).is_err() {
+				continue;
+			}
+			let mut ok = true;
+			// signals are derived from the values: they are required to stay constant as long as the values themselves are
+			// bit-constant (values that move at rounding level may move a comparison with them)
+			let mut v0: Option<Vec<u64>> = None;
+			let mut still = true;
+			for _ in 0..k {
+				match catch(|| b.next(&first)) {
+					Ok(r) => {
+						let v = vals(&r);
+						let vb: Vec<u64> = v.iter().map(|x| x.to_bits()).collect();
+						still = still && v0.as_ref().map_or(true, |w| *w == vb);
+						v0.get_or_insert(vb);
+						let m = v.iter().fold(0.0f64, |m, x| if x.is_finite() { m.max(x.abs()) } else { m });
+						let mut ev = json!({"ev":"pre_const","y":v.iter().map(|x| fx(*x)).collect::<Vec<_>>(),"mag":fx(m)});
+						if still {
+							ev["s"] = json!(sigs(&r));
+						}
+						tw.ev(ev)
+					}
+					Err(e) => {
+						tw.ev(json!({"ev":"pre_const","y":[{"panic": e}],"s":[]}));
+						ok = false;
+						break;
+					}
+				}
+			}
+			if !ok {
+				continue;
+			}
+			// signals are compared exactly as long as the two runs carry bit-identical values (a one-ulp difference of the
+			// values may legitimately move a threshold comparison)
+			let mut same_bits = true;
+			for i in 0..steps {
+				let x = if i == 0 { first } else { g.candle() };
+				let mag = (x.high as f64).abs().max(x.volume as f64);
+				match (catch(|| a.next(&x)), catch(|| b.next(&x))) {
+					(Ok(ra), Ok(rb)) => {
+						let (va, vb) = (vals(&ra), vals(&rb));
+						same_bits = same_bits && va.iter().zip(vb.iter()).all(|(p, q)| p.to_bits() == q.to_bits() || (p.is_nan() && q.is_nan()));
+						let m = va.iter().chain(vb.iter()).fold(mag, |m, x| if x.is_finite() { m.max(x.abs()) } else { m });
+						let mut ev = json!({"ev":"pre_pair","y":va.iter().map(|x| fx(*x)).collect::<Vec<_>>(),"yk":vb.iter().map(|x| fx(*x)).collect::<Vec<_>>(),"mag":fx(m)});
+						if same_bits {
+							ev["s"] = json!(sigs(&ra));
+							ev["sk"] = json!(sigs(&rb));
+						}
+						tw.ev(ev);
+					}
+					(Err(_), Err(_)) => break,
+					_ => {
+						tw.ev(json!({"ev":"pre_pair","y":[{"panic": true}],"yk":[],"mag":fx(mag)}));
+						break;
+					}
+				}
+			}
+		}
+	}
+	let n = tw.finish();
+	println!("{}", json!({"kind":"summary","events":n}));
 }
 
 /// class of a panic message (the site inside the crate that gave up)
